@@ -281,6 +281,8 @@ func (w *World) dispatch(op M, line M) {
 	case "release":
 		tt := si.TerminationType(si.TerminationType_value[gs(op, "term")])
 		w.CC.VerifUpdateAllocations(w.releaseReq(gs(op, "app"), gs(op, "key"), tt))
+	case "releaseAll":
+		w.CC.VerifUpdateAllocations(w.releaseReq(gs(op, "app"), "", si.TerminationType_STOPPED_BY_RM))
 	case "confirm":
 		if len(w.PendingRel) == 0 {
 			line["key"], line["app"], line["term"], line["none"] = "", "", "", true
